@@ -19,7 +19,7 @@ if go build ./... 2>>"$R"; then echo "builds: yes" >> "$R"; else echo "builds: N
 # checks on the patched tree
 det=""
 for p in C01 C02 C03 C04 C05 C06 C07 C08 C09 C10 C11 C12 C13 C14 C15 C16 C17 C18; do
-  o=$("$V/bin/gbcheck" -verif "$V" -repo "$W" -property $p -tier quick -no-evidence -json "$OUT/$NAME.$p.json" 2>&1); code=$?
+  o=$("${GBBIN:-$V/bin/gbcheck}" -verif "$V" -repo "$W" -property $p -tier quick -no-evidence -json "$OUT/$NAME.$p.json" 2>&1); code=$?
   if [ $code -ne 0 ]; then
     rules=$(python3 -c "
 import json,sys
@@ -36,23 +36,29 @@ echo "detected:$det" >> "$R"
 # demo with the change
 mkdir -p /tmp/tgb_$NAME
 demos=$(ls "$SD"/*_test.go 2>/dev/null)
-pkgdir=store
-for d in $demos; do
-  pk=$(sed -n 's/^package \([a-z_]*\).*/\1/p' "$d" | head -1)
-  case "$pk" in store) pkgdir=store;; memcache) pkgdir=memcache;; gobeansdb) pkgdir=gobeansdb;; quicklz) pkgdir=quicklz;; utils) pkgdir=utils;; cmem) pkgdir=cmem;; esac
-  cp "$d" "$W/$pkgdir/"
-done
+pkgof() { pk=$(sed -n 's/^package \([a-z_]*\).*/\1/p' "$1" | head -1); pk=${pk%_test}; case "$pk" in main) echo .;; *) echo "$pk";; esac; }
+pkgdirs=$(for d in $demos; do pkgof "$d"; done | sort -u)
+putdemos() { for d in $demos; do cp "$d" "$W/$(pkgof "$d")/"; done; }
+rmdemos() { for d in $demos; do rm -f "$W/$(pkgof "$d")/$(basename $d)"; done; }
 tests=$(grep -h '^func Test' $demos | sed 's/func \(Test[A-Za-z0-9_]*\).*/\1/' | paste -sd'|')
-extra=""; [ "$pkgdir" = store ] && extra="-args -base /tmp/tgb_$NAME"
-if go test -vet=off -count=1 -timeout 15m -run "^($tests)\$" ./$pkgdir/ $extra > "$OUT/$NAME.demo_with.log" 2>&1; then echo "demo_with_change: PASS (unexpected)" >> "$R"; else echo "demo_with_change: FAIL (expected)" >> "$R"; fi
+rundemos() { # $1 = log ; returns 0 if every package passes
+  rc=0; : > "$1"
+  for pd in $pkgdirs; do
+    extra=""; [ "$pd" = store ] && extra="-args -base /tmp/tgb_$NAME"
+    go test -vet=off -count=1 -timeout 15m -run "^($tests)\$" ./$pd/ $extra >> "$1" 2>&1 || rc=1
+  done
+  return $rc
+}
+putdemos
+if rundemos "$OUT/$NAME.demo_with.log"; then echo "demo_with_change: PASS (unexpected)" >> "$R"; else echo "demo_with_change: FAIL (expected)" >> "$R"; fi
 # existing suite with the change (demo files removed)
-for d in $demos; do rm -f "$W/$pkgdir/$(basename $d)"; done
+rmdemos
 rm -rf /tmp/tgb_$NAME; mkdir -p /tmp/tgb_$NAME
 ( go test -vet=off -count=1 -timeout 25m ./store/ -args -base /tmp/tgb_$NAME; go test -vet=off -count=1 -timeout 25m $(go list ./... | grep -v '/store$') ) > "$OUT/$NAME.suite.log" 2>&1
 fails=$(grep -E '^(--- FAIL|FAIL|panic)' "$OUT/$NAME.suite.log" | grep -v 'TestConfig\|gobeansdb/gobeansdb\|^FAIL$' | head -5 | tr '\n' ';')
 echo "suite_with_change: ${fails:-pass (only TestConfig fails)}" >> "$R"
 # demo without the change
-git checkout -q -- . ; for d in $demos; do cp "$d" "$W/$pkgdir/"; done
+git checkout -q -- . ; putdemos
 rm -rf /tmp/tgb_$NAME; mkdir -p /tmp/tgb_$NAME
-if go test -vet=off -count=1 -timeout 15m -run "^($tests)\$" ./$pkgdir/ $extra > "$OUT/$NAME.demo_without.log" 2>&1; then echo "demo_without_change: PASS (expected)" >> "$R"; else echo "demo_without_change: FAIL (unexpected)" >> "$R"; fi
-echo "pkg: $pkgdir tests: $tests" >> "$R"
+if rundemos "$OUT/$NAME.demo_without.log"; then echo "demo_without_change: PASS (expected)" >> "$R"; else echo "demo_without_change: FAIL (unexpected)" >> "$R"; fi
+echo "pkg: $(echo $pkgdirs | tr ' ' ',') tests: $tests" >> "$R"
